@@ -72,6 +72,9 @@ def variants(names, col, direct_ok=True, expression=False):
         out.append(('dq-spaced', 'a[ %s ]' % qast.lit(nm, '"')) if len(nm) % 2 else ('sq-paren', 'a[(%s)]' % qast.lit(nm, "'")))
     if qast.attr_safe(nm):
         out.append(('attr', 'a.%s' % nm))
+        if expression:
+            # the attribute spelling only inside an f-string, under every prefix the host language allows (the field is a string: the f-string is the field)
+            out.append(('fstr-attr', ['f"{a.%s}"', 'F"{a.%s}"', "rf'{a.%s}'", "fr'{a.%s}'", 'Rf"""{a.%s}"""', "F'{a.%s}'"][len(nm) % 6] % nm))
     return out
 
 
